@@ -1,15 +1,16 @@
-(* Extraction of the executable model for the correspondence driver.
+(* Extraction of the executable model for the correspondence driver (one OCaml module per Coq file,
+   written next to the Makefile as <Module>.ml/.mli; name clashes between areas cannot occur).
    Directives used: those of ExtrOcamlBasic only (bool, option, unit, list, prod, sumbool, sumor);
    no Extract Constant; Z / positive stay as extracted inductives. *)
 Require Import ExtrOcamlBasic.
-Require Import Base Fixed Panic Curve Bank BankOps TransferFee XrateConsts Xrate Price ConfigGen Config Emode ConfigPaths ConfigHealth.
+Require Import Base Fixed Panic Curve Bank BankOps Risk Handlers TransferFee XrateConsts Xrate Price ConfigGen Config Emode ConfigPaths ConfigHealth.
 Extraction Language OCaml.
-Extraction "extract/model.ml"
+Separate Extraction
   p_pause p_unpause p_unpause_if_expired p_is_expired p_can_pause c_is_expired ix_propagate
   ix_panic_pause ix_panic_unpause ix_panic_unpause_permissionless is_protocol_paused mkP
   ir_validate calc_interest_rate mpc legacy_curve
   bstep brun la_empty mkBW accrual_state_changes remaining_deposit_capacity pre_fee_deposit_amount
-  calculate_fee urun i80_from_i128_checked adjust_i128 adjust_i64 adjust_u64
+  calculate_fee urun hstep hrun fixed_feed mkHW health_components check_init_health i80_from_i128_checked adjust_i128 adjust_i64 adjust_u64
   collateral_to_liquidity_from_scaled liquidity_to_collateral_from_scaled liq_to_col_ratio
   col_to_liq_ratio scale_supplies convert_decimals u68f60_to_i80f48 k_total_supply k_scaled_supplies
   k_collateral_to_liquidity k_liquidity_to_collateral k_is_stale decimal_to_i80f48 s_total_liquidity
